@@ -60,11 +60,9 @@ theorem check_noCrash (E : Ext) (C : CExt) (us : List CUnion) :
     simp only [tyKnown] at hk
     cases l <;> simp only [check]
     · exact noCrash_invalid _
+    · exact noCrash_invalid _
     · split
-      · exact checkFloatVal_noCrash E _ _ _ hk
-      · exact noCrash_invalid _
-    · split
-      · exact checkFloatVal_noCrash E _ _ _ hk
+      · exact noCrash_ite (checkFloatVal_noCrash E _ _ _ hk) (noCrash_invalid _)
       · exact noCrash_invalid _
     · exact checkFloatVal_noCrash E _ _ _ hk
     · exact noCrash_invalid _
@@ -125,11 +123,11 @@ theorem populateDefault_noCrash (E : Ext) (C : CExt) (us : List CUnion) (t : IrT
   refine noCrash_ite (noCrash_invalid _) (noCrash_ite (noCrash_invalid _) ?_)
   by_cases hd : defaultable (unwrapAll t) = true
   · simp only [hd, Bool.not_true, Bool.false_eq_true, ↓reduceIte]
-    cases hc : coerceDefault E t lit with
+    cases hc : check E C us t lit with
     | error e =>
       intro x hx
-      exact coerceDefault_noCrash E t lit x (by rw [hc]; simpa using hx)
-    | ok d => exact noCrash_map _ (check_noCrash E C us t hk hd d)
+      exact check_noCrash E C us t hk hd lit x (by rw [hc]; simpa using hx)
+    | ok d => exact coerceDefault_noCrash E t lit
   · simp only [hd, Bool.not_false, ↓reduceIte]
     exact noCrash_invalid _
 
@@ -172,7 +170,13 @@ theorem checkExample_noCrash (E : Ext) (C : CExt) (us : List CUnion) :
   | float cls mn mx => intro hk v; simp only [checkExample]; exact checkPrimExample_noCrash E C us _ v hk rfl
   | str a b p => intro hk v; simp only [checkExample]; exact checkPrimExample_noCrash E C us _ v hk rfl
   | ts f => intro hk v; simp only [checkExample]; exact checkPrimExample_noCrash E C us _ v hk rfl
-  | bytes => intro _ v; simp only [checkExample]; split <;> first | exact noCrash_ok _ | exact noCrash_invalid _
+  | bytes =>
+    intro _ v; simp only [checkExample]
+    split
+    · split
+      · exact noCrash_ite (noCrash_ok _) (noCrash_invalid _)
+      · exact noCrash_invalid _
+    · exact noCrash_invalid _
   | void => intro _ v; simp only [checkExample]; split <;> first | exact noCrash_ok _ | exact noCrash_invalid _
   | struct c s => intro _ v; simp only [checkExample]; split <;> first | exact noCrash_ok _ | exact noCrash_invalid _
   | union c => intro _ v; simp only [checkExample]; split <;> first | exact noCrash_ok _ | exact noCrash_invalid _
